@@ -13,7 +13,8 @@
 (*                 line replacement rule on the stored 8-bit age           *)
 (*                 (age = search mod GenMod), `occupied` counted on the    *)
 (*                 first fill of a slot, `key % 0` on a zero-slot table    *)
-(*                 and the `generation += 1` overflow as a Crash state.    *)
+(*                 and (Checked = TRUE: the code before /repo fec6e7e) the *)
+(*                 `generation += 1` overflow as a Crash state.            *)
 (*                                                                         *)
 (*   PropertyView  the predicates PV* : exactly what C19 states.  They     *)
 (*                 speak about the true search number (a ghost the code    *)
@@ -30,8 +31,8 @@ CONSTANTS
     N(_),          \* size setting (megabytes in the code) -> number of slots
     SlotOf(_, _),  \* (key, number of slots > 0) -> slot index;  key mod n in the code
     GenMod,        \* number of distinct stored ages: 256 in the code (u8)
-    Checked        \* TRUE: `generation += 1` panics on overflow (checked build of the code as written);
-                   \* FALSE: it wraps (optimised build)
+    Checked        \* TRUE: `generation += 1` panics on overflow (checked build of the code before the
+                   \* repair /repo fec6e7e); FALSE: it wraps (wrapping_add; any optimised build)
 
 VARIABLES
     slot,      \* [tracked slot indices -> None or entry]
@@ -172,8 +173,8 @@ Probe(k) ==
        ELSE /\ ret' = [op |-> "probe", k |-> k, res |-> ProbeOf(slot, k, N(size))]
             /\ UNCHANGED <<slot, search, occupied, size, bulk, st>>
 
-\* new_generation: `self.generation += 1` on a u8, t times in a row (the panic of the checked build
-\* happens in the call that would leave GenMod - 1)
+\* new_generation on the u8 counter, t times in a row: wrapping_add(1); before /repo fec6e7e `+= 1`,
+\* which panics in a checked build in the call that would leave GenMod - 1 (Checked = TRUE)
 NewSearches(t) ==
     /\ Live
     /\ LET r == [op |-> "newsearch", times |-> t]
